@@ -201,7 +201,7 @@ func lHistories(cases []LCase, obsOf func(i int) *LObs, meta *Meta, maxFirst, ma
 
 // the caching reader the library builds its default reader from (URIMapCache) must be transparent:
 // the same store read through it resolves every reference to the same object
-func lCacheTransparency(cases []LCase, obsOf func(i int) *LObs, meta *Meta, max int) {
+func lCacheTransparency(cases []LCase, obsOf func(i int) *LObs, meta *Meta, max int, robustOnly bool) {
 	doc := func(schemas map[string]any) map[string]any {
 		return jobj("openapi", "3.0.3", "info", jobj("title", "t", "version", "1"), "paths", jobj(), "components", jobj("schemas", schemas))
 	}
@@ -214,6 +214,17 @@ func lCacheTransparency(cases []LCase, obsOf func(i int) *LObs, meta *Meta, max 
 		root := doc(jobj("A", ref(pair[0]+"#/components/schemas/X"), "B", ref(pair[1]+"#/components/schemas/X"), "C", ref(pair[0]+"#/components/schemas/X")))
 		cs = append(cs, LCase{Allow: true, Entry: 2, Root: "/api/root.json", Files: []LFile{{URI: "/api/root.json", Doc: root},
 			{URI: pair[0], Doc: doc(jobj("X", str("id1")))}, {URI: pair[1], Doc: doc(jobj("X", str("id2")))}}})
+	}
+	// one file read several times through the cache (whole-file references are read once per reference), then others
+	{
+		el := func(id string) map[string]any { return jobj("type", "string", "description", id) }
+		root := doc(jobj("A", ref("a.json"), "B", ref("a.json"), "C", ref("c.json"), "D", ref("sub/d.json"), "E", ref("a.json"), "F", ref("http://h.example/f.json"), "G", ref("http://h.example/f.json"), "H", ref("http://h.example/g.json")))
+		for _, rootURI := range []string{"/api/root.json", "http://h.example/api/root.json"} {
+			base := rootURI[:len(rootURI)-len("root.json")]
+			cs = append(cs, LCase{Allow: true, Entry: 2, Root: rootURI, Files: []LFile{{URI: rootURI, Doc: root},
+				{URI: base + "a.json", Doc: el("ida")}, {URI: base + "c.json", Doc: el("idc")}, {URI: base + "sub/d.json", Doc: el("idd")},
+				{URI: "http://h.example/f.json", Doc: el("idf")}, {URI: "http://h.example/g.json", Doc: el("idg")}}})
+		}
 	}
 	n := 0
 	for i := range cases {
@@ -232,7 +243,7 @@ func lCacheTransparency(cases []LCase, obsOf func(i int) *LObs, meta *Meta, max 
 			}
 			return nil, fmt.Errorf("no such file: %s", u.String())
 		}
-		load := func(reader openapi3.ReadFromURIFunc) (int, string, map[string]*int64) {
+		load1 := func(reader openapi3.ReadFromURIFunc) (int, string, map[string]*int64) {
 			var out int
 			var et string
 			var obs map[string]*int64
@@ -259,10 +270,35 @@ func lCacheTransparency(cases []LCase, obsOf func(i int) *LObs, meta *Meta, max 
 			}
 			return out, et, obs
 		}
+		// a load that does not return (a lock of the cache never released) is reported, not waited for
+		load := func(reader openapi3.ReadFromURIFunc) (int, string, map[string]*int64) {
+			type res struct {
+				out int
+				et  string
+				obs map[string]*int64
+			}
+			ch := make(chan res, 1)
+			go func() {
+				o, e, ob := load1(reader)
+				ch <- res{o, e, ob}
+			}()
+			select {
+			case r := <-ch:
+				return r.out, r.et, r.obs
+			case <-time.After(10 * time.Second):
+				return 3, "the load did not return within 10 s", nil
+			}
+		}
 		po, pe, pobs := load(plain)
 		co, ce, cobs := load(openapi3.URIMapCache(plain))
 		sig, detail := "", ""
-		if po != co {
+		if co == 3 && po != 3 {
+			sig, detail = "cache:load-hangs-through-URIMapCache", "plain reader: outcome "+fmt.Sprint(po)+"; caching reader: "+ce
+		} else if co == 2 && po != 2 {
+			sig, detail = "cache:load-panics-through-URIMapCache", ce
+		} else if robustOnly {
+			// C20 asks for an outcome, not for the right one
+		} else if po != co {
 			sig, detail = "cache:outcome-differs-through-URIMapCache", fmt.Sprintf("plain reader: outcome %d %s; caching reader: outcome %d %s", po, pe, co, ce)
 		} else if po == 0 {
 			if d := sameObs(pobs, cobs); d != "" {
@@ -272,6 +308,9 @@ func lCacheTransparency(cases []LCase, obsOf func(i int) *LObs, meta *Meta, max 
 		if sig != "" {
 			meta.Histogram["oracle:"+sig]++
 			meta.GoViolation = append(meta.GoViolation, map[string]any{"signature": sig, "cases": []any{c}, "go_observation": detail, "judgement": sig + ": " + detail})
+			if co == 3 {
+				return // the stuck goroutine holds the cache's lock: nothing further can be learnt in this process
+			}
 		}
 	}
 }
